@@ -27,12 +27,15 @@ def setup():
 # ------------------------------------------------------------------ (a) signatures
 def signature(p):
     parts = []
+    nposonly = p.choose(2, "positional_only")
     npos = p.choose(3, "plain_positionals")
     ndef = p.choose(3, "positionals_with_default")
     star = ["none", "*args", "*"][p.choose(3, "star")]
     kwo = p.choose(2, "keyword_only_without_default")
     kwd = p.choose(2, "keyword_only_with_default")
     kws = p.choose(2, "double_star")
+    if nposonly:
+        parts += ["o0", "/"]
     parts += ["p%d" % i for i in range(npos)]
     parts += ["d%d=%s" % (i, ["'td'", "1 + 1", "(1, 2)"][i]) for i in range(ndef)]
     if star == "*args":
